@@ -233,7 +233,7 @@ func Verif_C15_Z3_TaskCompletion() {
 	})
 	var got []byte
 	var err error
-	switch vnd.Choose(3) {
+	switch vnd.Choose(4) {
 	case 0:
 		got, err = b.ToByteSlice(100)
 	case 1:
@@ -245,6 +245,22 @@ func Verif_C15_Z3_TaskCompletion() {
 		got, err = io.ReadAll(r)
 		if cerr := r.Close(); err == nil {
 			err = cerr
+		}
+	case 3:
+		// chunked consumption: the end of the stream (io.EOF) is the completion report
+		r := b.ToChunkReader(0, 1+vnd.Choose(2))
+		for i := 0; i < 8; i++ {
+			var c []byte
+			c, err = r.Read()
+			got = append(got, c...)
+			if err != nil {
+				break
+			}
+		}
+		vnd.Assert(taskFinished, "a chunk reader with a background task reported the end of the stream (or an error) before the task had finished")
+		r.Close()
+		if err == io.EOF {
+			err = nil
 		}
 	}
 	vnd.Assert(taskFinished, "a buffer with a background task reported completion before the task had finished")
